@@ -529,12 +529,28 @@ Definition spec_remaining (facts : list (string * json)) (id : string) : list st
 Definition any_expired (s : state) (now : Z) : bool :=
   existsb (fun kv => fact_expired (snd kv) now) (st_facts s).
 
+Definition failure_happened_b (s : state) : bool :=
+  match st_fail s with Some n => (n <? st_calls s)%nat | None => false end.
+
 (** Judge a removal against the closure spec: (bad?, known-finding ids). *)
 Definition judge_removal (sy0 sy' : system) (o : json) (now : Z) : bool * list string :=
   let name := jfS "loc" o in
   match sys_get sy0 name, sys_get sy' name with
   | Some l0, Some l1 =>
       let s0 := l_state l0 in
+      (* "every fact or rule that names it in deleteWith ... is deleted too, transitively ... the deletions
+         reach storage": judged on the storage as the harness read it right after the removal returned -
+         whatever has expired meanwhile (an expired dependent has to go like any other; the purge that
+         follows the removal continues the cascade through it) *)
+      let stays := match jget "store_after" o with
+                   | Some (JArr ids) =>
+                       if failure_happened_b s0 || negb (list_eqb String.eqb (map fst (st_facts s0)) (map fst (st_store s0)))
+                       then false
+                       else existsb (fun j => mem_json (JStr j) ids)
+                                    (clo_iter (S (length (st_facts s0))) (st_facts s0) [jfS "id" o])
+                   | _ => false
+                   end in
+      if stays then (true, []) else
       if any_expired s0 now then (false, [])
       else if negb (list_eqb String.eqb (map fst (st_facts s0)) (map fst (st_store s0))) then (false, [])
            (* memory and storage already differ: an earlier operation of this instance was hit by an
